@@ -227,3 +227,17 @@ def run(F, R, tier):
     ifs = [x for x in H.walk(b) if x.get("k") == "if" and H.render(x["c"]).startswith("let v1::Some(filter) = filter_end")]
     R.ob("end-filter-once", "end filter is taken from filter_end", len(ifs) == 1, "", F.loc(rf), nontrivial=False)
     # ---- (h) the emitted filter code leaves exactly one value: delegated to the emission verifier (C07) --------------------------------------------
+    # ---- (i) "writes the packet, as modified so far": what is written is the packet's current state -------------------------------------
+    # C15's rules on the output path (write_all serialises the packet when it is written, through From<&PcapPacket>, whose
+    # shape is header ‖ cached layer | rawdata) and the rule that a packet object holds no derived copy of its own bytes are
+    # necessary for this clause: a cached encoding survives a later assignment to a layer field.
+    import importlib
+    from .lib import core as _core
+    try:
+        R15 = _core.Report("C15")
+        importlib.import_module("rules.c15").run(F, R15, tier)
+        for o in R15.obls:
+            if o.rule in ("output-routing", "packet-serialiser-shape", "packet-holds-no-derived-bytes"):
+                R.ob("linked:C15:" + o.rule, o.key, o.ok, o.detail, o.loc, nontrivial=False)
+    except Exception as e:  # fail closed
+        R.ob("linked-check", "C15's output rules could be evaluated", False, "%s: %s" % (type(e).__name__, e))
